@@ -2,6 +2,7 @@ import ConfModel.Driver.Common
 import ConfModel.Model.WireChecks
 import ConfModel.Spec.WireChecks
 import ConfModel.Model.ConnectJson
+import ConfModel.Spec.ContentCoding
 import ConfModel.Spec.ConnectJson
 namespace ConfModel.Driver.C13
 open Lean ConfModel.Driver ConfModel.WireChecks ConfModel.WireChecksSpec
@@ -246,6 +247,18 @@ def judgeJSON (endStream : Bool) (kind : String) (impl : Json) : Verdict :=
       else s!"well-formed={wellFormed}, must flag {reprStr (if endStream then mustFlagEndStream doc else mustFlagError doc)}, feedback {fb}",
     cls := cls }
 
+/-- the compressed-exchange ops (c13z.go): is the plain payload what the examiner must see? -/
+def zDemanded (stream : Bool) (inp : Json) : Bool :=
+  let enc := if isNull (field inp "enc") then none else some (str (field inp "enc"))
+  ContentCoding.payloadReachesExaminer stream (bool (field inp "flag")) (nat (field inp "comp")) enc
+
+def zCls (inp : Json) (base : String) : String :=
+  let enc := field inp "enc"
+  let spelling := if isNull enc then "absent" else
+    let e := str enc
+    if e == ContentCoding.lower e then "lower" else if e == e.map Char.toUpper then "upper" else "mixed"
+  s!"{base}/{ContentCoding.codings.getD (nat (field inp "comp")) "?"}/{spelling}"
+
 def handle : Handler := fun op inp impl =>
   if !(isNull (field impl "panic")) then
     { agree := false, holds := false, why := "panic on arbitrary input: " ++ str (field impl "panic") } else
@@ -307,6 +320,38 @@ def handle : Handler := fun op inp impl =>
       model := Json.mkObj [("block", hex mBlock), ("examined", model)], why := why,
       cls := if !hyp then "hypothesis-violated" else if noEdgeSpace msg then "plain" else "edge-space" }
   | "cerr" | "cend" => judgeJSON (op == "cend") (str (field inp "kind")) impl
+  | "zcerr" | "zcend" =>
+    -- the same judgement as cerr / cend, on the feedback of the complete exchange
+    let kind := str (field inp "kind")
+    if !zDemanded (op == "zcend") inp then
+      { agree := true, holds := true, nontrivial := false, cls := "coding-not-announced" } else
+    let v := judgeJSON (op == "zcend") kind impl
+    let fb := strList (field impl "fb")
+    let direct := strList (field impl "direct")
+    let same := fb == direct
+    let holds := v.holds && bool (field impl "ok")
+    { v with
+      agree := v.agree && same, holds := holds,
+      why := if !holds then
+          s!"compressed payload (coding {nat (field inp "comp")}, announced as {(field inp "enc").compress}): " ++
+            (if v.why == "" then "exchange not examined" else v.why) ++ s!" [feedback on the plain payload: {direct}]"
+        else if !same then s!"feedback through the exchange {fb} differs from the feedback on the plain payload {direct}"
+        else v.why,
+      cls := zCls inp (if kind == "own" then "own" else "mutant") }
+  | "zgrpcweb" =>
+    if !zDemanded true inp then
+      { agree := true, holds := true, nontrivial := false, cls := "coding-not-announced" } else
+    let block := unhex (str (field inp "block"))
+    let e := examinedOf impl
+    let (agree, model, fb1, fb2) := judgeBlock block e
+    let other := strList (field impl "other")
+    let unknown := unknownClasses e ++ other
+    let same := e.fb1 == strList (field impl "direct1") && e.fb2 == strList (field impl "direct2")
+    let holds := unknown.isEmpty && blockHolds block fb1 && statusHolds e.dec e.hdrs fb2 && bool (field impl "ok")
+    { agree := agree && same, holds := holds, nontrivial := true, model := model,
+      why := if holds then (if same then "" else "feedback through the exchange differs from the feedback on the plain block") else
+        s!"compressed trailers frame (coding {nat (field inp "comp")}, announced as {(field inp "enc").compress}): block well-formed={blockOK block} must flag {reprStr (mustFlag block)} got {e.fb1}; status well-formed={statusOK e.dec e.hdrs} must flag {reprStr (mustFlagStatus e.dec e.hdrs)} got {e.fb2} {unknown} [on the plain block: {strList (field impl "direct1")} {strList (field impl "direct2")}]",
+      cls := zCls inp (if blockOK block && statusOK e.dec e.hdrs then "well-formed" else "malformed") }
   | "serve" =>
     let fb := strList (field impl "fb")
     let msg := unhex (str (field inp "msg"))
